@@ -9,7 +9,9 @@ import (
 	"encoding/json"
 	"fmt"
 	"os"
+	"runtime"
 	"strings"
+	"sync"
 	"time"
 
 	"github.com/janelia-flyem/dvid/datastore"
@@ -31,6 +33,11 @@ type world struct {
 	lmNext   int    // next unused label (column) of lm2
 	idxNext  uint64 // next synthetic label for ChangeLabelIndex
 	njRepo   string
+	njDev    string // open head of branch "dev" in a second neuronjson repo: a version without in-memory db
+	kvaChild string // keyvalue: open child of a committed root in which every key a<i> has the value v0
+	kvaNext  int
+	lmEp     int    // labelmap episodes so far: picks the label region
+	lmUsed   [4]int // columns used per region
 	njHead   string // uncommitted HEAD of master in njRepo
 	njNext   int
 	dagRepo  string
@@ -111,12 +118,13 @@ func (w *world) rebuild(family string) {
 	case "lm": // labelmap for merges: column x is body x+1 (256 voxels, one block)
 		w.lmRepo = freshRepo("lm")
 		w.lmNext = 0
+		w.lmUsed = [4]int{}
 		must(dv.NewInstance(w.lmRepo, "labelmap", "lm2", map[string]string{"BlockSize": "16,16,16"}))
 		buf := make([]byte, mergeCols*bs*bs*8)
 		for z := 0; z < bs; z++ {
 			for y := 0; y < bs; y++ {
 				for x := 0; x < mergeCols; x++ {
-					binary.LittleEndian.PutUint64(buf[((z*bs+y)*mergeCols+x)*8:], uint64(x+1))
+					binary.LittleEndian.PutUint64(buf[((z*bs+y)*mergeCols+x)*8:], lmLabelOfCol(x))
 				}
 			}
 		}
@@ -131,6 +139,13 @@ func (w *world) rebuild(family string) {
 		must(dv.NewInstance(w.njRepo, "neuronjson", "nj", nil))
 		w.njHead = w.njRepo
 		w.njNext = 100
+		// a version for which neuronjson keeps no in-memory db: the open head of a named branch
+		njb := freshRepo("njb")
+		must(dv.NewInstance(njb, "neuronjson", "nj", nil))
+		okResp(dv.Commit(njb), "commit neuronjson branch root")
+		dev, r := dv.Branch(njb, "dev")
+		okResp(r, "neuronjson dev branch")
+		w.njDev = dev
 	case "dag":
 		w.dagRepo = freshRepo("dag")
 		okResp(dv.Commit(w.dagRepo), "commit root")
@@ -374,12 +389,33 @@ func annMovePrepare(w *world, n int) prepared {
 
 // ------------------------------------------------------------------ labelmap
 
-func (w *world) lmLabels(k int) uint64 {
-	if w.lmNext+k > mergeCols {
-		fatal("out of bodies for merge episodes")
+// The merge volume has four regions of columns whose bodies have ids of different magnitude:
+// small, above 2^32 (high word 5), above 2^63, and just below 2^64.  Episodes take their bodies
+// from the regions in turn.
+const lmRegion = mergeCols / 4
+
+var lmBases = [4]uint64{0, 5 << 32, 1<<63 + 37<<32, 0xFFFFFFFE << 32}
+
+func lmLabelOfCol(x int) uint64 { return lmBases[x/lmRegion] + uint64(x%lmRegion) + 1 }
+
+func (w *world) colOf(label uint64) int {
+	for r := 3; r >= 0; r-- {
+		if label > lmBases[r] && label-lmBases[r] <= lmRegion {
+			return r*lmRegion + int(label-lmBases[r]) - 1
+		}
 	}
-	first := uint64(w.lmNext + 1)
-	w.lmNext += k
+	fatal("label %d is not a body of the merge volume", label)
+	return 0
+}
+
+func (w *world) lmLabels(k int) uint64 {
+	r := w.lmEp % 4
+	w.lmEp++
+	if w.lmUsed[r]+k > lmRegion {
+		fatal("out of bodies for merge episodes in region %d", r)
+	}
+	first := lmLabelOfCol(r*lmRegion + w.lmUsed[r])
+	w.lmUsed[r] += k
 	// label indices of an ingested volume are written in the background
 	for l := first; l < first+uint64(k); l++ {
 		t0 := time.Now()
@@ -453,7 +489,7 @@ func lmMergePrepare(w *world, n int) prepared {
 			if svs[a] {
 				inIdx = append(inIdx, i)
 			}
-			if lmLabelAt(w, int(a)-1) == t {
+			if lmLabelAt(w, w.colOf(a)) == t {
 				mapped = append(mapped, i)
 			}
 		}
@@ -502,7 +538,7 @@ func lmCleavePrepare(w *world, n int) prepared {
 				gone = append(gone, i)
 			}
 			if cleaved[i] != 0 {
-				if lmLabelAt(w, int(s)-1) == cleaved[i] {
+				if lmLabelAt(w, w.colOf(s)) == cleaved[i] {
 					mapped = append(mapped, i)
 				}
 				c := lmSupervoxels(w, cleaved[i])
@@ -778,10 +814,10 @@ func mixedPrepare(w *world, s *siteDef, site2 string) prepared {
 		if !svs[sv] {
 			inIdx = append(inIdx, 2)
 		}
-		if lmLabelAt(w, int(a)-1) == t {
+		if lmLabelAt(w, w.colOf(a)) == t {
 			mapped = append(mapped, 1)
 		}
-		if cleaved != 0 && lmLabelAt(w, int(sv)-1) == cleaved {
+		if cleaved != 0 && lmLabelAt(w, w.colOf(sv)) == cleaved {
 			mapped = append(mapped, 2)
 		}
 		return []view{{Name: "target", IDs: inIdx}, {Name: "mapping", IDs: mapped}}, 0
@@ -873,5 +909,115 @@ func allSites() []siteDef {
 			live:    []string{"datastore.saveToStore.rlocked", "datastore.newVersion.append"},
 			prepare: dagPrepare(false), stressN: [2]int{6, 10}, rounds: [2]int{10, 120}},
 		{name: "datastore.newVersion", variant: "branch", family: "dag", prepare: dagPrepare(true), stressN: [2]int{6, 10}, rounds: [2]int{6, 60}},
+	}
+}
+
+// ------------------------------------------------------------------ keyvalue, key with a value in an ancestor
+
+const kvaKeys = 6000
+
+func (w *world) kvaSetup() {
+	root := freshRepo("kva")
+	must(dv.NewInstance(root, "keyvalue", "kv", nil))
+	for i := 0; i < kvaKeys; i++ {
+		okResp(dv.Post(nodeURL(root, "kv", fmt.Sprintf("key/a%d", i)), []byte("v0")), "ancestor value")
+	}
+	okResp(dv.Commit(root), "commit keyvalue root")
+	child, r := dv.NewVersion(root)
+	okResp(r, "keyvalue child")
+	w.kvaChild = child
+	w.kvaNext = 0
+}
+
+// kvAncestorStress: POST and DELETE of one key from two goroutines in the open child of a version
+// in which the key has the value v0, start offsets swept, one fresh key per attempt, for at most
+// the given time.  Whatever the order, the child must afterwards show either the posted value or
+// no value; the ancestor's value showing through means the child holds neither value nor
+// tombstone.  A hit is tried again with the same offset before it is reported.
+func kvAncestorStress(w *world, budget time.Duration) caseJ {
+	if w.kvaChild == "" {
+		w.kvaSetup()
+	}
+	c := caseJ{Site: "keyvalue.PutData", Variant: "ancestor", Mode: "stress", N: 2}
+	offsets := []time.Duration{0, 2 * time.Microsecond, 5 * time.Microsecond, 10 * time.Microsecond, 20 * time.Microsecond, 40 * time.Microsecond, 80 * time.Microsecond, 160 * time.Microsecond}
+	attempt := func(off time.Duration, putFirst bool) (string, bool, bool) {
+		if w.kvaNext >= kvaKeys {
+			return "", true, true
+		}
+		key := fmt.Sprintf("a%d", w.kvaNext)
+		w.kvaNext++
+		var okPut, okDel bool
+		var wg sync.WaitGroup
+		start := make(chan struct{})
+		wg.Add(2)
+		go func() {
+			defer wg.Done()
+			<-start
+			if !putFirst {
+				spin(off)
+			}
+			okPut = dv.Post(nodeURL(w.kvaChild, "kv", "key/"+key), []byte("v1")).Status == 200
+		}()
+		go func() {
+			defer wg.Done()
+			<-start
+			if putFirst {
+				spin(off)
+			}
+			okDel = dv.Delete(nodeURL(w.kvaChild, "kv", "key/"+key)).Status == 200
+		}()
+		close(start)
+		wg.Wait()
+		r := dv.Get(nodeURL(w.kvaChild, "kv", "key/"+key))
+		switch {
+		case r.Status == 404:
+			return "deleted", okPut, okDel
+		case r.Status == 200:
+			return string(r.Body), okPut, okDel
+		}
+		fatal("keyvalue read %s: %d %s", key, r.Status, r.Body)
+		return "", false, false
+	}
+	t0 := time.Now()
+	tried, hits := 0, 0
+	final := "v1"
+	hitOff, hitPutFirst := time.Duration(0), false
+	for time.Since(t0) < budget && w.kvaNext < kvaKeys-300 {
+		off := offsets[tried%len(offsets)]
+		putFirst := (tried/len(offsets))%2 == 0
+		tried++
+		got, okPut, okDel := attempt(off, putFirst)
+		if okPut && okDel && got != "v1" && got != "deleted" {
+			hits = 1
+			final, hitOff, hitPutFirst = got, off, putFirst
+			// reproduce with the same offsets before reporting
+			for k := 0; k < 250 && hits < 2; k++ {
+				tried++
+				if g, p, d := attempt(off, putFirst); p && d && g != "v1" && g != "deleted" {
+					hits++
+				}
+			}
+			break
+		}
+	}
+	c.Acked = []int{1, 2}
+	c.Requests = []string{"1: POST kv/key/a<i> = v1 (open child; the committed parent holds a<i> = v0)", "2: DELETE kv/key/a<i>"}
+	c.Schedule = fmt.Sprintf("two goroutines per key, start offsets swept over %v in both orders, %d keys tried in %.1f s", offsets, tried, time.Since(t0).Seconds())
+	if hits > 0 {
+		c.Schedule += fmt.Sprintf("; the child showed %q afterwards (the parent's value: neither value nor tombstone stored) with offset %v, POST first = %v; seen %d time(s)", final, hitOff, hitPutFirst, hits)
+		c.Views = []view{{Name: "data", IDs: nil}}
+	} else {
+		c.Views = []view{{Name: "data", IDs: []int{1}}}
+	}
+	c.Extra = 0
+	c.Seed = uint64(tried)
+	return c
+}
+
+// spin waits without giving up the processor for long (time.Sleep is too coarse for microseconds)
+func spin(d time.Duration) {
+	t0 := time.Now()
+	for time.Since(t0) < d {
+		runtime.Gosched()
 	}
 }
